@@ -351,12 +351,22 @@ func corruptHarness(rc *RunCtx) {
 				}
 			default:
 			}
-			// connection-oriented: the canary uses a new connection
-			env.tr = frugal.NewAdapterTransport(env.newAdapterConn())
-			if err := env.tr.Open(); err != nil {
-				infra = "reopen: " + err.Error()
+			// connection-oriented: the canary uses a new connection - through a new transport or, when the
+			// transport gave the connection up by itself, through the same transport opened again (what a monitor
+			// or the application does): nothing of the dead connection may be left in it
+			if closedSeen && tp.Intn("corrupt2", 2) == 1 {
+				rc.Fault("same-transport-reopened-after-garbage")
+				settle(time.Second)
+				if err := env.tr.Open(); err != nil {
+					rc.Violate("C05", "canary-failed", key, fmt.Sprintf("entry %s, corruption: %s: the transport closed itself and cannot be opened again: %v", entry, what, err))
+				}
+			} else {
+				env.tr = frugal.NewAdapterTransport(env.newAdapterConn())
+				if err := env.tr.Open(); err != nil {
+					infra = "reopen: " + err.Error()
+				}
+				env.client = simsvc.NewFLeafClient(frugal.NewFServiceProvider(env.tr, env.pf))
 			}
-			env.client = simsvc.NewFLeafClient(frugal.NewFServiceProvider(env.tr, env.pf))
 		case "simple-server":
 			bad, w := corruptFrame(rc, reqFrame, true)
 			what = w
@@ -500,6 +510,7 @@ func (failingReader) Read([]byte) (int, error) { return 0, fmt.Errorf("simulated
 const warmID, canaryID = int64(7777000001), int64(7777000002)
 
 func corruptSubscriber(rc *RunCtx, s *simrt.Sim, entry, proto string) {
+	extraBad := ""
 	tp := rc.Tape
 	pf := frugal.NewFProtocolFactory(protoFactory(proto))
 	var nb *SimBroker
@@ -558,8 +569,31 @@ func corruptSubscriber(rc *RunCtx, s *simrt.Sim, entry, proto string) {
 			inject(bad)
 		}
 		settle(time.Second)
+		extra := 0
+		if sb != nil && tp.Intn("corrupt2", 3) == 1 {
+			// STOMP level: MESSAGE frames that lack the header an acknowledgement needs, then a run of good ones -
+			// more than any queue of pending acknowledgements holds
+			rc.Fault("stomp-message-without-ack-header")
+			sb.OmitAckNext = 1 + tp.Intn("corrupt2", 2)
+			for i := 0; i < 2; i++ {
+				pub.PublishItemCreated(frugal.NewFContext("c"), "u", genItem(tp, canaryID+100+int64(i)))
+			}
+			settle(time.Second)
+			sb.OmitAckNext = 0
+			extra = 8 + tp.Intn("corrupt2", 8)
+			for i := 0; i < extra; i++ {
+				pub.PublishItemCreated(frugal.NewFContext("c"), "u", genItem(tp, canaryID+1+int64(i)))
+			}
+			what += fmt.Sprintf("MESSAGE frames without ack header, then %d well-formed messages; ", extra)
+			settle(time.Second)
+		}
 		pub.PublishItemCreated(frugal.NewFContext("c"), "u", genItem(tp, canaryID))
 		settle(time.Second)
+		for i := 0; i < extra; i++ {
+			if got[canaryID+1+int64(i)] != 1 && extraBad == "" {
+				extraBad = fmt.Sprintf("well-formed message %d of %d published afterwards was delivered %d times", i+1, extra, got[canaryID+1+int64(i)])
+			}
+		}
 		finished = true
 	})
 	s.Run(func() bool {
@@ -576,6 +610,8 @@ func corruptSubscriber(rc *RunCtx, s *simrt.Sim, entry, proto string) {
 			rc.Violate("INFRA", "warm-up-publish-not-delivered", key, fmt.Sprint(got))
 		} else if got[canaryID] != 1 {
 			rc.Violate("C05", "canary-failed", key, fmt.Sprintf("%s: a well-formed message published afterwards was delivered %d times", where, got[canaryID]))
+		} else if extraBad != "" {
+			rc.Violate("C05", "canary-failed", key, where+": "+extraBad)
 		}
 	}
 	s.Shutdown()
